@@ -9,6 +9,7 @@ use lsp_types::{
 use mos_core::codegen::CodegenContext;
 use mos_core::parser::code_map::Span;
 use mos_core::parser::{Identifier, ParseTree, Token};
+use std::path::PathBuf;
 use std::sync::{Arc, Mutex};
 
 pub struct DocumentSymbolRequestHandler;
@@ -32,6 +33,7 @@ impl RequestHandler<DocumentSymbolRequest> for DocumentSymbolRequestHandler {
                         codegen,
                         filename: file.file.name(),
                         recurse: false,
+                        importing: vec![],
                     };
                     let docsyms = emitter.emit_document_symbols(&file.tokens, None);
                     let document_symbols = docsyms
@@ -60,6 +62,7 @@ impl RequestHandler<WorkspaceSymbol> for WorkspaceSymbolHandler {
                         codegen,
                         filename: file.file.name(),
                         recurse: true,
+                        importing: vec![tree.main_file.clone()],
                     };
                     let docsyms = emitter.emit_document_symbols(&file.tokens, None);
                     let workspace_symbols = docsyms
@@ -131,6 +134,8 @@ struct DocSymEmitter<'a> {
     codegen: Arc<Mutex<CodegenContext>>,
     filename: &'a str,
     recurse: bool,
+    /// The files that are being traversed right now (imports may be cyclic)
+    importing: Vec<PathBuf>,
 }
 
 impl<'a> DocSymEmitter<'a> {
@@ -162,13 +167,16 @@ impl<'a> DocSymEmitter<'a> {
                 ..
             } => {
                 let mut result = vec![];
-                if self.recurse {
+                if self.recurse && !self.importing.contains(resolved_path) {
                     if let Some(file) = self.tree.try_get_file(&resolved_path) {
+                        let mut importing = self.importing.clone();
+                        importing.push(resolved_path.clone());
                         let emitter = DocSymEmitter {
                             tree: self.tree,
                             codegen: self.codegen.clone(),
                             filename: file.file.name(),
                             recurse: self.recurse,
+                            importing,
                         };
                         result.extend(emitter.emit_document_symbols(&file.tokens, None));
                     }
